@@ -518,8 +518,20 @@ func (c *Conn) Closed() bool {
 // Close closes the connection gracefully, sending a GoAway message
 // and then closing the underlying TCP connection.
 func (c *Conn) Close() error {
+	first, err := c.shut()
+
+	if first && c.onDisconnect != nil {
+		c.onDisconnect(c)
+	}
+
+	return err
+}
+
+// shut is Close without the disconnect callback. It reports whether this call
+// was the one that closed the connection.
+func (c *Conn) shut() (bool, error) {
 	if !atomic.CompareAndSwapUint64(&c.closed, 0, 1) {
-		return io.EOF
+		return false, io.EOF
 	}
 
 	// in is deliberately not closed: Write can be running on any goroutine, and
@@ -551,11 +563,7 @@ func (c *Conn) Close() error {
 
 	_ = c.c.Close()
 
-	if c.onDisconnect != nil {
-		c.onDisconnect(c)
-	}
-
-	return err
+	return true, err
 }
 
 // Write queues the request to be sent to the server.
@@ -679,16 +687,31 @@ func (c *Conn) writeLoop() {
 	// Close before draining, not after. Closing is what stops Write from
 	// handing us requests, so anything that lands in the queue from here on
 	// sees a closed connection and resolves itself.
-	_ = c.Close()
+	//
+	// The disconnect callback waits until the requests have their answer. It
+	// is somebody else's code (the Client dials a replacement in it), and the
+	// callers of the requests that were in flight have no reason to wait for
+	// it.
+	first, _ := c.shut()
 
 	for _, ctx := range c.takeAllReqs() {
 		ctx.resolve(lastErr)
 	}
 
+	c.drainQueues(lastErr)
+
+	if first && c.onDisconnect != nil {
+		c.onDisconnect(c)
+	}
+}
+
+// drainQueues resolves the requests and drops the frames that were queued for
+// a write loop that is leaving.
+func (c *Conn) drainQueues(err error) {
 	for {
 		select {
 		case ctx := <-c.in:
-			ctx.resolve(lastErr)
+			ctx.resolve(err)
 		case fr := <-c.out:
 			ReleaseFrameHeader(fr)
 		default:
